@@ -80,12 +80,17 @@ theorem lev_cons_ne {id c : Nat} (o : Option Nat) (lv : Lv) (h : c ≠ id) : Lv.
 theorem mem_ids_of_lev {lv : Lv} {c l : Nat} (h : lv.lev c = some l) : c ∈ lv.map Prod.fst :=
   List.mem_map_of_mem (f := Prod.fst) (Lv.mem_of_lev h)
 
-theorem LvOK.lev_lt {lv : Lv} {d c l : Nat} (h : LvOK lv d) (hl : lv.lev c = some l) : l < d :=
+theorem LvOK.lev_lt {lv : Lv} {d c l : Nat} (h : LvOK mo lv d) (hl : lv.lev c = some l) : l < d :=
   h.below _ (Lv.mem_of_lev hl) l rfl
 
-theorem LvOK.push {lv : Lv} {d id : Nat} (h : LvOK lv d) (hid : id ≠ 0) (hn : id ∉ lv.map Prod.fst) :
-    LvOK ((id, some d) :: lv) (d + 1) := by
-  refine ⟨List.nodup_cons.2 ⟨hn, h.nodup⟩, ?_, ?_, ?_⟩
+theorem LvOK.push {lv : Lv} {d id : Nat} (h : LvOK mo lv d) (hid : id ≠ 0) (hn : id ∉ lv.map Prod.fst) :
+    LvOK mo ((id, some d) :: lv) (d + 1) := by
+  refine ⟨List.nodup_cons.2 ⟨hn, h.nodup⟩, ?_, ?_, ?_, fun dN hdN => Nat.lt_succ_of_lt (h.lo dN hdN), ?_⟩
+  rotate_right
+  · intro dN hdN e he l hl
+    rcases List.mem_cons.1 he with rfl | he
+    · simp only [Option.some.injEq] at hl; subst hl; exact h.lo dN hdN
+    · exact h.above dN hdN e he l hl
   · intro e he
     rcases List.mem_cons.1 he with rfl | he
     · exact hid
@@ -100,9 +105,14 @@ theorem LvOK.push {lv : Lv} {d id : Nat} (h : LvOK lv d) (hid : id ≠ 0) (hn : 
     · simp only [Option.some.injEq] at hl; omega
     · have := h.below e he l hl; omega
 
-theorem LvOK.pushNone {lv : Lv} {d id : Nat} (h : LvOK lv d) (hid : id ≠ 0) (hn : id ∉ lv.map Prod.fst) :
-    LvOK ((id, none) :: lv) d := by
-  refine ⟨List.nodup_cons.2 ⟨hn, h.nodup⟩, ?_, ?_, ?_⟩
+theorem LvOK.pushNone {lv : Lv} {d id : Nat} (h : LvOK mo lv d) (hid : id ≠ 0) (hn : id ∉ lv.map Prod.fst) :
+    LvOK mo ((id, none) :: lv) d := by
+  refine ⟨List.nodup_cons.2 ⟨hn, h.nodup⟩, ?_, ?_, ?_, h.lo, ?_⟩
+  rotate_right
+  · intro dN hdN e he l hl
+    rcases List.mem_cons.1 he with rfl | he
+    · cases hl
+    · exact h.above dN hdN e he l hl
   · intro e he
     rcases List.mem_cons.1 he with rfl | he
     · exact hid
@@ -125,13 +135,13 @@ theorem map_fst_dropWhile (cp : Nat) : ∀ lv : Lv,
     · simp only [List.dropWhile, List.map_cons, ne_eq, h, not_false_eq_true, decide_true]
       exact ih
 
-theorem LvOK.drop {lv : Lv} {d : Nat} (h : LvOK lv d) (cp : Nat) : LvOK (lv.dropWhile (fun e => e.1 ≠ cp)) d := by
+theorem LvOK.drop {lv : Lv} {d : Nat} (h : LvOK mo lv d) (cp : Nat) : LvOK mo (lv.dropWhile (fun e => e.1 ≠ cp)) d := by
   have hsub := List.dropWhile_sublist (fun e : Nat × Option Nat => decide (e.1 ≠ cp)) (l := lv)
   refine ⟨(hsub.map Prod.fst).nodup h.nodup, fun e he => h.nz e (hsub.subset he), h.mono.sublist hsub,
-    fun e he => h.below e (hsub.subset he)⟩
+    fun e he => h.below e (hsub.subset he), h.lo, fun dN hdN e he => h.above dN hdN e (hsub.subset he)⟩
 
 /-- an element whose level is at most the level of `cp` is `cp` itself or further out -/
-theorem mem_drop_of_le {lv : Lv} {d : Nat} (h : LvOK lv d) {cp l c l' : Nat} (hcp : lv.lev cp = some l)
+theorem mem_drop_of_le {lv : Lv} {d : Nat} (h : LvOK mo lv d) {cp l c l' : Nat} (hcp : lv.lev cp = some l)
     (hc : lv.lev c = some l') (hle : l' ≤ l) : (c, some l') ∈ lv.dropWhile (fun e => e.1 ≠ cp) := by
   have hmc := Lv.mem_of_lev hc
   have hmcp := Lv.mem_of_lev hcp
@@ -163,59 +173,133 @@ theorem lev_of_sub {lv lv' : Lv} (hsub : lv'.Sublist lv) (hn : (lv.map Prod.fst)
 
 /-! ### what the search has to deliver -/
 
-structure Match (tmpl : Term) (max : Nat) (prog : List Term) (lv : Lv) (ans0 : List Term) (m m' : MS)
+/-- how the reference's search ends when the VM's search stops with a solution: enough answers
+    (the search of the query); the cut of `\\+` has been executed, then `fail` (the search nested in
+    `\\+`, `mo = some dN`) -/
+def foundStop (mo : Option Nat) (s : SLD.Stop) : Prop :=
+  match mo with
+  | none => s = .full
+  | some dN => s = .cut dN
+
+structure Match (mo : Option Nat) (tmpl : Term) (max : Nat) (prog : List Term) (lv : Lv) (ans0 : List Term) (m m' : MS)
     (sig : SigG Err) (r : SLD.Res) : Prop where
-  ans : ∃ new, m'.user.answers = new ++ ans0 ∧ Forall2 (AnsRel tmpl) new.reverse r.answers
+  ans : ∃ new, m'.user.answers = new ++ ans0 ∧ Forall2 (AnsRel tmpl) new.reverse r.answers ∧
+    (mo.isSome = true → r.answers = [])
   stop : (sig = .exhausted none ∧ r.stop = .exhausted ∧ m'.user.answers.length < max) ∨
          (∃ c l, sig = .exhausted (some c) ∧ r.stop = .cut l ∧ lv.lev c = some l ∧ m'.user.answers.length < max) ∨
-         (sig = .found ∧ r.stop = .full) ∨
+         (sig = .found ∧ foundStop mo r.stop) ∨
          (∃ F c1 c2 ex co, sig = .raised (.exc (errT F c1)) co ∧ r.stop = .raised (errT F c2) ex)
   st : StOK prog m'
   nvar : m.user.nextVar ≤ m'.user.nextVar
 
-theorem Match.from {tmpl : Term} {max : Nat} {prog : List Term} {lv : Lv} {ans0 : List Term} {m0 m m' : MS}
-    {sig : SigG Err} {r : SLD.Res} (h : Match tmpl max prog lv ans0 m m' sig r)
-    (hn : m0.user.nextVar ≤ m.user.nextVar) : Match tmpl max prog lv ans0 m0 m' sig r :=
+theorem Match.from {mo : Option Nat} {tmpl : Term} {max : Nat} {prog : List Term} {lv : Lv} {ans0 : List Term} {m0 m m' : MS}
+    {sig : SigG Err} {r : SLD.Res} (h : Match mo tmpl max prog lv ans0 m m' sig r)
+    (hn : m0.user.nextVar ≤ m.user.nextVar) : Match mo tmpl max prog lv ans0 m0 m' sig r :=
   ⟨h.ans, h.stop, h.st, Nat.le_trans hn h.nvar⟩
 
 theorem stOK_tick {prog : List Term} {m : MS} (h : StOK prog m) : StOK prog (tick m) := h
 theorem stOK_bump {prog : List Term} {m : MS} (h : StOK prog m) (N' : Nat) : StOK prog (bump m N') := h
 
-def TPk (tmpl : Term) (max : Nat) (prog : List Term) (F k : Nat) : Prop :=
+/-! ### the thunks the search evaluates -/
+
+mutual
+  /-- the search below `p` (fuel `k`, path `live`, state `m`) evaluates the thunk `x` in state `mx` -/
+  inductive VisP {τ ρ ε σ : Type} (sem : Sem τ ρ ε σ) (tf : Nat) :
+      Nat → P τ ρ ε → List Nat → M σ → τ → M σ → Prop
+    | nocut {k : Nat} {p : P τ ρ ε} {live : List Nat} {m : M σ} {t : τ} {ts : List τ} {x : τ} {mx : M σ} :
+        p.delayed = t :: ts → ¬ (p.id ≠ 0 ∧ live.contains p.id) → p.cutParent = none →
+        VisA sem tf k t (afterChild { p with cutParent := none }) live (tick m) x mx →
+        VisP sem tf (k + 1) p live m x mx
+    | cut {k : Nat} {p : P τ ρ ε} {live : List Nat} {m : M σ} {t : τ} {ts : List τ} {c : Nat} {x : τ} {mx : M σ} :
+        p.delayed = t :: ts → ¬ (p.id ≠ 0 ∧ live.contains p.id) → p.cutParent = some c →
+        live.contains c = true →
+        VisA sem tf k t (afterChild { p with cutParent := none }) (live.dropWhile (· ≠ c)) (tick m) x mx →
+        VisP sem tf (k + 1) p live m x mx
+  /-- the search of the alternatives `t`, then `f`, evaluates the thunk `x` in state `mx` -/
+  inductive VisA {τ ρ ε σ : Type} (sem : Sem τ ρ ε σ) (tf : Nat) :
+      Nat → τ → P τ ρ ε → List Nat → M σ → τ → M σ → Prop
+    | here {k : Nat} {t : τ} {f : P τ ρ ε} {live : List Nat} {m : M σ} : VisA sem tf (k + 1) t f live m t m
+    | child {k : Nat} {t : τ} {f : P τ ρ ε} {live : List Nat} {m : M σ} {q : P τ ρ ε} {m1 : M σ} {x : τ} {mx : M σ} :
+        sem.evalThunk tf t m = some (q, m1) → VisP sem tf k q (push f.id live) m1 x mx →
+        VisA sem tf (k + 1) t f live m x mx
+    | next {k : Nat} {t : τ} {f : P τ ρ ε} {live : List Nat} {m : M σ} {q : P τ ρ ε} {m1 m2 : M σ} {x : τ} {mx : M σ} :
+        sem.evalThunk tf t m = some (q, m1) →
+        dfsP sem tf k q (push f.id live) m1 = some (.exhausted none, m2) →
+        VisP sem tf k f live m2 x mx →
+        VisA sem tf (k + 1) t f live m x mx
+end
+
+/-- the side condition on one thunk evaluation (`fl = true`: `call/1` is in the fragment): if it ends
+    in `call(G)`, then `G` is — as far as the model's inner fuel dereferences it — a variable or a
+    body of the fragment (`ResFine`) -/
+def Good (fl : Bool) : Nat → Thunk → MS → Prop
+  | 0, _, _ => True
+  | F + 1, t, m =>
+    fl = true →
+      (∀ res, evalThunk (F + 1) t m = some res → ResFine fl res) ∧
+      -- `\\+ G`: the goal is called by the thunk itself, in a search of its own
+      (∀ g k env, t = .negate g k env → callOK fl env g ∧
+        ∀ k' x mx, VisP (VM.sem F) 0 k' (callGoal g .done env m).1 [] (callGoal g .done env m).2 x mx → Good fl F x mx)
+
+theorem Good.fine {fl : Bool} {F : Nat} {t : Thunk} {m : MS} (h : Good fl F t m) (hfl : fl = true)
+    (res : Pr × MS) (hev : evalThunk F t m = some res) : ResFine fl res := by
+  cases F with
+  | zero => simp [evalThunk] at hev
+  | succ F' => exact (h hfl).1 res hev
+
+theorem Good.neg {fl : Bool} {F : Nat} {g : Term} {k : Cont} {env : Env} {m : MS}
+    (h : Good fl (F + 1) (.negate g k env) m) (hfl : fl = true) :
+    callOK fl env g ∧
+      ∀ k' x mx, VisP (VM.sem F) 0 k' (callGoal g .done env m).1 [] (callGoal g .done env m).2 x mx → Good fl F x mx :=
+  (h hfl).2 g k env rfl
+
+def GoodP (fl : Bool) (F k : Nat) (p : Pr) (live : List Nat) (m : MS) : Prop :=
+  ∀ x mx, VisP (VM.sem F) 0 k p live m x mx → Good fl F x mx
+
+def GoodA (fl : Bool) (F k : Nat) (t : Thunk) (f : Pr) (live : List Nat) (m : MS) : Prop :=
+  ∀ x mx, VisA (VM.sem F) 0 k t f live m x mx → Good fl F x mx
+
+def TPk (fl : Bool) (mo : Option Nat) (tmpl : Term) (max : Nat) (prog : List Term) (F k : Nat) : Prop :=
   ∀ (p : Pr) (lv : Lv) (m : MS) (sig : SigG Err) (m' : MS),
     dfsP (VM.sem F) 0 k p (lv.map Prod.fst) m = some (sig, m') →
-    ∀ (d : Nat) (ans0 : List Term) (r : SLD.Res), PSpec tmpl max prog lv d p m ans0 r → LvOK lv d →
+    GoodP fl F k p (lv.map Prod.fst) m →
+    ∀ (d : Nat) (ans0 : List Term) (r : SLD.Res), PSpecW fl mo tmpl max prog lv d p m ans0 r → LvOK mo lv d →
       StOK prog m → ans0.length < max →
-      sig = .illScoped ∨ Match tmpl max prog lv ans0 m m' sig r
+      sig = .illScoped ∨ Match mo tmpl max prog lv ans0 m m' sig r
 
-/-- the thunk of the clause `c` first, then the frame with the thunks of `cs` -/
-def TAk (tmpl : Term) (max : Nat) (prog : List Term) (F k : Nat) : Prop :=
-  ∀ (c : Term) (cs : List Term) (id : Nat) (g g2 : Term) (K : Cont) (env : Env) (R : List SLD.Frame) (q : Term)
+/-- the thunk of the first clause, then the frame with the thunks of the other clauses -/
+def TAk (fl : Bool) (mo : Option Nat) (tmpl : Term) (max : Nat) (prog : List Term) (F k : Nat) : Prop :=
+  ∀ (it : Item) (its : List Item) (id : Nat) (g : Term) (K : Cont) (env : Env)
+    (R : List SLD.Frame) (q : Term)
     (nv n d : Nat) (r : SLD.Res) (lv : Lv) (m : MS) (sig : SigG Err) (m' : MS) (ans0 : List Term),
-    dfsAlts (VM.sem F) 0 k (Thunk.clause (clauseOf c) (argList g) K env id)
-      { id := id, delayed := cs.map (fun c => Thunk.clause (clauseOf c) (argList g) K env id) }
+    dfsAlts (VM.sem F) 0 k (Thunk.clause it.1 (argList g) K env id)
+      { id := id, delayed := its.map (fun it => Thunk.clause it.1 (argList g) K env id) }
       (lv.map Prod.fst) m = some (sig, m') →
+    GoodA fl F k (Thunk.clause it.1 (argList g) K env id)
+      { id := id, delayed := its.map (fun it => Thunk.clause it.1 (argList g) K env id) }
+      (lv.map Prod.fst) m →
     m.user.answers = ans0 → id ≠ 0 → id ∉ lv.map Prod.fst →
-    (∀ c' ∈ c :: cs, clauseOK c' = true ∧ headKey c' = (functorName g, (argList g).length)) →
     Shape g →
-    SimAt tmpl max lv K env m.user.nextVar R q nv (fun σ π D => InD D g ∧ g2 = img σ π g) →
-    SLD.solveAlts false (progS prog) n d nv ((c :: cs).map (fun c => .clause g2 (ruleOf c))) R q (max - ans0.length) = some r →
-    LvOK lv d → StOK prog m → ans0.length < max →
-    sig = .illScoped ∨ Match tmpl max prog lv ans0 m m' sig r
+    SimAt fl mo tmpl max lv K env m.user.nextVar R q nv
+      (fun σ π D => InD D g ∧ AltsRel fl σ π D nv d g (it :: its)) →
+    SLD.solveAlts false (progS prog) n d nv ((it :: its).filterMap (·.2.2)) R q (max - ans0.length) = some r →
+    LvOK mo lv d → StOK prog m → ans0.length < max →
+    sig = .illScoped ∨ Match mo tmpl max prog lv ans0 m m' sig r
 
 /-- the thunk of the bootstrap clause `true.`, then the empty frame -/
-def TDk (tmpl : Term) (max : Nat) (prog : List Term) (F k : Nat) : Prop :=
+def TDk (fl : Bool) (mo : Option Nat) (tmpl : Term) (max : Nat) (prog : List Term) (F k : Nat) : Prop :=
   ∀ (ct : Clause) (id : Nat) (K : Cont) (env : Env) (R : List SLD.Frame) (q : Term)
     (nv n d : Nat) (r : SLD.Res) (lv : Lv) (m : MS) (sig : SigG Err) (m' : MS) (ans0 : List Term),
     dfsAlts (VM.sem F) 0 k (Thunk.clause ct [] K env id) { id := id, delayed := [] } (lv.map Prod.fst) m = some (sig, m') →
+    GoodA fl F k (Thunk.clause ct [] K env id) { id := id, delayed := [] } (lv.map Prod.fst) m →
     m.user.answers = ans0 → id ≠ 0 → id ∉ lv.map Prod.fst → ct.code = [.exit] → ct.vars = [] →
-    SimAt tmpl max lv K env m.user.nextVar R q nv (fun _ _ _ => True) →
+    SimAt fl mo tmpl max lv K env m.user.nextVar R q nv (fun _ _ _ => True) →
     SLD.solve false (progS prog) n d nv R q (max - ans0.length) = some r →
-    LvOK lv d → StOK prog m → ans0.length < max →
-    sig = .illScoped ∨ Match tmpl max prog lv ans0 m m' sig r
+    LvOK mo lv d → StOK prog m → ans0.length < max →
+    sig = .illScoped ∨ Match mo tmpl max prog lv ans0 m m' sig r
 
 section
-variable {tmpl : Term} {max : Nat} {prog : List Term} {F : Nat}
+variable {fl : Bool} {mo : Option Nat} {tmpl : Term} {max : Nat} {prog : List Term} {F : Nat}
 
 theorem leaf_ok' {k : Nat} {p : Pr} {live : List Nat} {m : MS} (hd : p.delayed = []) (he : p.err = none) :
     dfsP (VM.sem F) 0 (k + 1) p live m = some (if p.ok then .found else .exhausted none, tick m) :=
@@ -248,11 +332,11 @@ theorem body_grel {lv : Lv} {σ' : Subst} {π' : Nat → Nat} {D' : Nat → Prop
     {G1 : List (Term × Nat)} {Bs : List Term} (hid : lv.lev id = some d)
     (h : Forall2 (fun g1 bg => InD D' g1.1 ∧ g1.2 = id ∧
       img σ' π' g1.1 = (SLD.shift nv bg).subst (substOf θ)) G1 Bs) :
-    GRel lv σ' π' D' G1 (Bs.map (fun bg => SLD.Frame.subst θ (SLD.Frame.goal (SLD.shift nv bg) d))) := by
+    GRel none lv σ' π' D' G1 (Bs.map (fun bg => SLD.Frame.subst θ (SLD.Frame.goal (SLD.shift nv bg) d))) := by
   induction h with
-  | nil => exact .nil
+  | nil => exact .nil rfl
   | cons hd _ ih =>
-    refine .cons ⟨hd.1, d, ?_, fun _ => by rw [hd.2.1]; exact hid⟩ ih
+    refine .cons ⟨hd.1, d, Or.inl ?_, fun _ => by rw [hd.2.1]; exact hid⟩ ih
     simp only [SLD.Frame.subst, applySubst_eq, hd.2.2]
 
 theorem forall2_left {α β : Type} {R : α → β → Prop} {P : α → Prop} {as : List α} {bs : List β}
@@ -268,9 +352,9 @@ theorem forall2_left {α β : Type} {R : α → β → Prop} {P : α → Prop} {
 /-- a relation on a path stays one on a path whose level map agrees on the levels in use -/
 theorem grel_ext {lv lv1 : Lv} (hext : ∀ c l, lv.lev c = some l → lv1.lev c = some l)
     {σ : Subst} {π : Nat → Nat} {D : Nat → Prop} {G : List (Term × Nat)} {R : List SLD.Frame}
-    (h : GRel lv σ π D G R) : GRel lv1 σ π D G R := by
-  refine Forall2.imp h ?_
-  rintro g fr ⟨hg, l, hfr, hl⟩
+    (h : GRel mo lv σ π D G R) : GRel mo lv1 σ π D G R := by
+  refine h.imp ?_
+  rintro g _ fr ⟨hg, l, hfr, hl⟩
   exact ⟨hg, l, hfr, fun hc => hext _ _ (hl hc)⟩
 
 theorem cutsOK_ext {lv lv1 : Lv} (hext : ∀ c l, lv.lev c = some l → lv1.lev c = some l)
@@ -298,7 +382,7 @@ theorem cutsOK_ext {lv lv1 : Lv} (hext : ∀ c l, lv.lev c = some l → lv1.lev 
 theorem simAt_ext {lv lv1 : Lv} (hext : ∀ c l, lv.lev c = some l → lv1.lev c = some l)
     {K : Cont} {env : Env} {nvar : Nat} {R : List SLD.Frame} {q : Term} {nv : Nat}
     {P : Subst → (Nat → Nat) → (Nat → Prop) → Prop}
-    (h : SimAt tmpl max lv K env nvar R q nv P) : SimAt tmpl max lv1 K env nvar R q nv P := by
+    (h : SimAt fl mo tmpl max lv K env nvar R q nv P) : SimAt fl mo tmpl max lv1 K env nvar R q nv P := by
   obtain ⟨N, σ, π, D, G, h1, h2, h3, h4, h5, h6⟩ := h
   exact ⟨N, σ, π, D, G, h1, h2, h3, grel_ext hext h4, cutsOK_ext hext h5, h6⟩
 
@@ -313,17 +397,18 @@ theorem hext_push {lv : Lv} {id : Nat} (o : Option Nat) (hn : id ∉ lv.map Prod
 theorem absorb_found (id : Nat) (m : MS) : absorb id (SigG.found : SigG Err) m = (.found, m) := rfl
 
 /-- the search below a promise that came out of a thunk, then the frame that stayed behind -/
-theorem after_child {k : Nat} (ihP : TPk tmpl max prog F k) {t : Thunk} {f q0 : Pr} {lv lv1 : Lv} {d1 : Nat}
+theorem after_child {k : Nat} (ihP : TPk fl mo tmpl max prog F k) {t : Thunk} {f q0 : Pr} {lv lv1 : Lv} {d1 : Nat}
     {m m1 : MS} {sig : SigG Err} {m' : MS} {ans0 : List Term} {r1 : SLD.Res}
     (hda : dfsAlts (VM.sem F) 0 (k + 1) t f (lv.map Prod.fst) m = some (sig, m'))
+    (hgood : GoodA fl F (k + 1) t f (lv.map Prod.fst) m)
     (hev : (VM.sem F).evalThunk 0 t m = some (q0, m1))
     (hlv1 : lv1.map Prod.fst = push f.id (lv.map Prod.fst))
-    (hspec : PSpec tmpl max prog lv1 d1 q0 m1 ans0 r1) (hok1 : LvOK lv1 d1) (hst1 : StOK prog m1)
+    (hspec : PSpecW fl mo tmpl max prog lv1 d1 q0 m1 ans0 r1) (hok1 : LvOK mo lv1 d1) (hst1 : StOK prog m1)
     (hlt : ans0.length < max) (hrec : f.recover = none) :
     sig = .illScoped ∨
-    (∃ m2, Match tmpl max prog lv1 ans0 m1 m2 (.exhausted none) r1 ∧
-      dfsP (VM.sem F) 0 k f (lv.map Prod.fst) m2 = some (sig, m')) ∨
-    (∃ sig1 m2, Match tmpl max prog lv1 ans0 m1 m2 sig1 r1 ∧ sig1 ≠ .exhausted none ∧
+    (∃ m2, Match mo tmpl max prog lv1 ans0 m1 m2 (.exhausted none) r1 ∧
+      dfsP (VM.sem F) 0 k f (lv.map Prod.fst) m2 = some (sig, m') ∧ GoodP fl F k f (lv.map Prod.fst) m2) ∨
+    (∃ sig1 m2, Match mo tmpl max prog lv1 ans0 m1 m2 sig1 r1 ∧ sig1 ≠ .exhausted none ∧
       (sig, m') = absorb f.id sig1 m2) := by
   cases hq : dfsP (VM.sem F) 0 k q0 (push f.id (lv.map Prod.fst)) m1 with
   | none => rw [dfsAlts_child_none hev hq] at hda; cases hda
@@ -331,7 +416,11 @@ theorem after_child {k : Nat} (ihP : TPk tmpl max prog F k) {t : Thunk} {f q0 : 
     obtain ⟨sig1, m2⟩ := pr2
     have hq' := hq
     rw [← hlv1] at hq'
-    rcases ihP q0 lv1 m1 sig1 m2 hq' d1 ans0 r1 hspec hok1 hst1 hlt with hill | hm
+    have hgq : GoodP fl F k q0 (lv1.map Prod.fst) m1 := by
+      intro x mx hx
+      rw [hlv1] at hx
+      exact hgood x mx (.child hev hx)
+    rcases ihP q0 lv1 m1 sig1 m2 hq' hgq d1 ans0 r1 hspec hok1 hst1 hlt with hill | hm
     · subst hill
       rw [dfsAlts_pass hev hq (by simp) (by simp)] at hda
       simp only [absorb, Option.some.injEq, Prod.mk.injEq] at hda
@@ -348,7 +437,7 @@ theorem after_child {k : Nat} (ihP : TPk tmpl max prog F k) {t : Thunk} {f q0 : 
         cases co with
         | none =>
           rw [dfsAlts_exh hev hq] at hda
-          exact Or.inr (Or.inl ⟨m2, hm, hda⟩)
+          exact Or.inr (Or.inl ⟨m2, hm, hda, fun x mx hx => hgood x mx (.next hev hq hx)⟩)
         | some c =>
           rw [dfsAlts_pass hev hq (by simp) (by simp)] at hda
           exact Or.inr (Or.inr ⟨_, m2, hm, by simp, (Option.some.inj hda).symm⟩)
@@ -378,9 +467,63 @@ theorem absorb_cut_eq (id : Nat) (m : MS) :
     absorb id (SigG.exhausted (some id) : SigG Err) m = (.exhausted none, tick m) := by
   simp [absorb]
 
-theorem td_succ {k : Nat} (ihP : TPk tmpl max prog F k) (hprog : ∀ c ∈ prog, clauseOK c = true) :
-    TDk tmpl max prog F (k + 1) := by
-  intro ct id K env R q nv n d r lv m sig m' ans0 hda hans hid0 hidn hcode hvars hsim hs hok hst hlt
+/-- the search below a promise that came out of a thunk of a frame without alternatives and
+    without a level in the reference (the clause `true.`, the thunk of `\\+` after the nested search) -/
+theorem direct_tail {k : Nat} (ihP : TPk fl mo tmpl max prog F k) {t : Thunk} {id : Nat} {q0 : Pr} {lv : Lv} {d : Nat}
+    {m m1 : MS} {sig : SigG Err} {m' : MS} {ans0 : List Term} {r : SLD.Res}
+    (hda : dfsAlts (VM.sem F) 0 (k + 1) t ({ id := id, delayed := [] } : Pr) (lv.map Prod.fst) m = some (sig, m'))
+    (hgood : GoodA fl F (k + 1) t { id := id, delayed := [] } (lv.map Prod.fst) m)
+    (hev : evalThunk F t m = some (q0, m1)) (hid0 : id ≠ 0) (hidn : id ∉ lv.map Prod.fst)
+    (hspec : PSpecW fl mo tmpl max prog ((id, none) :: lv) d q0 m1 ans0 r) (hok : LvOK mo lv d)
+    (hst1 : StOK prog m1) (hlt : ans0.length < max) (hnv1 : m.user.nextVar ≤ m1.user.nextVar) :
+    sig = .illScoped ∨ Match mo tmpl max prog lv ans0 m m' sig r := by
+  have hlv1 : ((id, (none : Option Nat)) :: lv).map Prod.fst =
+      push ({ id := id, delayed := [] } : Pr).id (lv.map Prod.fst) := by
+    simp [push, hid0]
+  rcases after_child ihP hda hgood (by exact hev) hlv1 hspec (hok.pushNone hid0 hidn) hst1 hlt rfl with
+    hill | ⟨m2, hm, hf, _⟩ | ⟨sig1, m2, hm, hne, hres⟩
+  · exact Or.inl hill
+  · -- the empty frame: exhausted
+    right
+    cases k with
+    | zero => simp [dfsP] at hf
+    | succ k' =>
+      rw [leaf_ok' rfl rfl] at hf
+      simp only [Option.some.injEq, Prod.mk.injEq] at hf
+      obtain ⟨rfl, rfl⟩ := hf
+      rcases hm.stop with ⟨_, h2, h3⟩ | ⟨_, _, h1, _⟩ | ⟨h1, _⟩ | ⟨_, _, _, _, _, h1, _⟩
+      · exact ⟨hm.ans, Or.inl ⟨rfl, h2, h3⟩, hm.st, Nat.le_trans hnv1 hm.nvar⟩
+      · cases h1
+      · cases h1
+      · cases h1
+  · right
+    rcases hm.stop with ⟨h1, _, _⟩ | ⟨c, l, h1, h2, h3, h4⟩ | ⟨h1, h2⟩ | ⟨F', c1, c2, ex, co, h1, h2⟩
+    · exact absurd h1 hne
+    · subst h1
+      have hc : c ≠ id := by
+        rintro rfl
+        rw [lev_cons_self] at h3; cases h3
+      rw [absorb_cut_ne m2 hc] at hres
+      simp only [Prod.mk.injEq] at hres
+      obtain ⟨rfl, rfl⟩ := hres
+      rw [lev_cons_ne none lv hc] at h3
+      exact ⟨hm.ans, Or.inr (Or.inl ⟨c, l, rfl, h2, h3, h4⟩), hm.st, Nat.le_trans hnv1 hm.nvar⟩
+    · subst h1
+      rw [absorb_found] at hres
+      simp only [Prod.mk.injEq] at hres
+      obtain ⟨rfl, rfl⟩ := hres
+      exact ⟨hm.ans, Or.inr (Or.inr (Or.inl ⟨rfl, h2⟩)), hm.st, Nat.le_trans hnv1 hm.nvar⟩
+    · subst h1
+      obtain ⟨co', hco'⟩ := absorb_raised id (.exc (errT F' c1)) co m2
+      rw [hco'] at hres
+      simp only [Prod.mk.injEq] at hres
+      obtain ⟨rfl, rfl⟩ := hres
+      exact ⟨hm.ans, Or.inr (Or.inr (Or.inr ⟨F', c1, c2, ex, co', rfl, h2⟩)), hm.st, Nat.le_trans hnv1 hm.nvar⟩
+
+
+theorem td_succ {k : Nat} (ihP : TPk fl mo tmpl max prog F k) (hprog : ∀ c ∈ prog, clauseS fl c = true) :
+    TDk fl mo tmpl max prog F (k + 1) := by
+  intro ct id K env R q nv n d r lv m sig m' ans0 hda hgood hans hid0 hidn hcode hvars hsim hs hok hst hlt
   cases hev : evalThunk F (Thunk.clause ct [] K env id) m with
   | none => rw [dfsAlts_thunk_none (sem := VM.sem F) (by exact hev)] at hda; cases hda
   | some pr =>
@@ -399,517 +542,163 @@ theorem td_succ {k : Nat} (ihP : TPk tmpl max prog F k) (hprog : ∀ c ∈ prog,
     obtain ⟨fuel, hcont⟩ := hcont
     subst hans
     have hext := hext_push (lv := lv) (id := id) none hidn
-    obtain ⟨hspec, hst1, hnv1⟩ := cont_run tmpl max prog hprog fuel K env m q0 m1 hcont ((id, none) :: lv) R q nv
+    obtain ⟨hspec, hst1, hnv1⟩ := cont_run tmpl max prog hprog fuel K env m q0 m1 hcont
+      (fun hfl => (hgood _ _ .here).fine hfl _ hev) ((id, none) :: lv) R q nv
       (simAt_ext hext hsim) hst n d r hs
-    have hlv1 : ((id, (none : Option Nat)) :: lv).map Prod.fst =
-        push ({ id := id, delayed := [] } : Pr).id (lv.map Prod.fst) := by
-      simp [push, hid0]
-    rcases after_child ihP hda (by exact hev) hlv1 hspec (hok.pushNone hid0 hidn) hst1 hlt rfl with
-      hill | ⟨m2, hm, hf⟩ | ⟨sig1, m2, hm, hne, hres⟩
+    exact direct_tail ihP hda hgood hev hid0 hidn hspec hok hst1 hlt hnv1
+
+theorem solveAlts_frames_cons (prog : List Term) (n d nv : Nat) (fs : List SLD.Frame) (as : List SLD.Alt)
+    (rest : List SLD.Frame) (q : Term) (limit : Nat) :
+    SLD.solveAlts false prog (n + 1) d nv (.frames fs :: as) rest q limit =
+      match SLD.solve false prog n (d + 1) nv (fs ++ rest) q limit with
+      | none => none
+      | some r =>
+        match r.stop with
+        | .exhausted => (SLD.solveAlts false prog n d nv as rest q (limit - r.answers.length)).map (SLD.Res.prepend r.answers)
+        | .cut c' => some { r with stop := if c' = d then .exhausted else .cut c' }
+        | _ => some r := by
+  rw [SLD.solveAlts]
+  rfl
+
+/-- the search stopped with a solution: the reference's result passes the alternatives of a call -/
+theorem found_pass {mo : Option Nat} {d : Nat} {r1 r : SLD.Res} {X : Option SLD.Res}
+    (hf : foundStop mo r1.stop) (hlo : ∀ dN, mo = some dN → dN < d)
+    (h : (match r1.stop with
+      | .exhausted => X
+      | .cut c' => some { r1 with stop := if c' = d then .exhausted else .cut c' }
+      | _ => some r1) = some r) : r = r1 := by
+  cases mo with
+  | none =>
+    have hf' : r1.stop = .full := hf
+    rw [hf'] at h
+    exact (Option.some.inj h).symm
+  | some dN =>
+    have hf' : r1.stop = .cut dN := hf
+    have hne : dN ≠ d := by have := hlo dN rfl; omega
+    rw [hf'] at h
+    simp only [hne, if_false, Option.some.injEq] at h
+    rw [← h]
+    cases r1
+    simp_all
+
+/-- the head of the first clause does not unify: the VM goes on with the other clauses -/
+theorem alt_fail {k : Nat} (ihP : TPk fl mo tmpl max prog F k) {t : Thunk} {f : Pr} {lv : Lv} {d : Nat}
+    {m : MS} {N' : Nat} {sig : SigG Err} {m' : MS} {r : SLD.Res}
+    (hda : dfsAlts (VM.sem F) 0 (k + 1) t f (lv.map Prod.fst) m = some (sig, m'))
+    (hgood : GoodA fl F (k + 1) t f (lv.map Prod.fst) m)
+    (hev : evalThunk F t m = some (failP, bump m N')) (hN' : m.user.nextVar ≤ N')
+    (hspec : PSpecW fl mo tmpl max prog lv d f (tick (bump m N')) m.user.answers r)
+    (hok : LvOK mo lv d) (hst : StOK prog m) (hlt : m.user.answers.length < max) :
+    sig = .illScoped ∨ Match mo tmpl max prog lv m.user.answers m m' sig r := by
+  cases k with
+  | zero =>
+    rw [dfsAlts_child_none (sem := VM.sem F) (q := failP) (m1 := bump m N') (by exact hev) (by simp [dfsP])] at hda
+    cases hda
+  | succ k' =>
+    have hq : dfsP (VM.sem F) 0 (k' + 1) failP (push f.id (lv.map Prod.fst)) (bump m N') =
+        some (.exhausted none, tick (bump m N')) := by
+      rw [leaf_ok' rfl rfl]; rfl
+    rw [dfsAlts_exh (sem := VM.sem F) (by exact hev) hq] at hda
+    rcases ihP _ _ _ _ _ hda (fun x mx hx => hgood x mx (.next (by exact hev) hq hx))
+      d m.user.answers r hspec hok hst hlt with hill | hm
     · exact Or.inl hill
-    · -- the empty frame: exhausted
-      right
-      cases k with
-      | zero => simp [dfsP] at hf
-      | succ k' =>
-        rw [leaf_ok' rfl rfl] at hf
-        simp only [Option.some.injEq, Prod.mk.injEq] at hf
-        obtain ⟨rfl, rfl⟩ := hf
-        rcases hm.stop with ⟨_, h2, h3⟩ | ⟨_, _, h1, _⟩ | ⟨h1, _⟩ | ⟨_, _, _, _, _, h1, _⟩
-        · exact ⟨hm.ans, Or.inl ⟨rfl, h2, h3⟩, hm.st, Nat.le_trans hnv1 hm.nvar⟩
-        · cases h1
-        · cases h1
-        · cases h1
-    · right
-      rcases hm.stop with ⟨h1, _, _⟩ | ⟨c, l, h1, h2, h3, h4⟩ | ⟨h1, h2⟩ | ⟨F', c1, c2, ex, co, h1, h2⟩
-      · exact absurd h1 hne
-      · subst h1
-        have hc : c ≠ id := by
-          rintro rfl
-          rw [lev_cons_self] at h3; cases h3
-        rw [absorb_cut_ne m2 hc] at hres
-        simp only [Prod.mk.injEq] at hres
-        obtain ⟨rfl, rfl⟩ := hres
-        rw [lev_cons_ne none lv hc] at h3
-        exact ⟨hm.ans, Or.inr (Or.inl ⟨c, l, rfl, h2, h3, h4⟩), hm.st, Nat.le_trans hnv1 hm.nvar⟩
-      · subst h1
-        rw [absorb_found] at hres
-        simp only [Prod.mk.injEq] at hres
-        obtain ⟨rfl, rfl⟩ := hres
-        exact ⟨hm.ans, Or.inr (Or.inr (Or.inl ⟨rfl, h2⟩)), hm.st, Nat.le_trans hnv1 hm.nvar⟩
-      · subst h1
-        obtain ⟨co', hco'⟩ := absorb_raised id (.exc (errT F' c1)) co m2
-        rw [hco'] at hres
-        simp only [Prod.mk.injEq] at hres
-        obtain ⟨rfl, rfl⟩ := hres
-        exact ⟨hm.ans, Or.inr (Or.inr (Or.inr ⟨F', c1, c2, ex, co', rfl, h2⟩)), hm.st, Nat.le_trans hnv1 hm.nvar⟩
+    · exact Or.inr (hm.from hN')
 
-theorem ta_succ {k : Nat} (ihP : TPk tmpl max prog F k) (hprog : ∀ c ∈ prog, clauseOK c = true) :
-    TAk tmpl max prog F (k + 1) := by
-  intro c cs id g g2 K env R q nv n d r lv m sig m' ans0 hda hans hid0 hidn hcs hshape hsim hs hok hst hlt
-  cases n with
-  | zero => rw [solveAlts_zero] at hs; cases hs
-  | succ n' =>
-  have hc := hcs c (by simp)
-  obtain ⟨_, hcr⟩ := clauseOf_spec c hc.1
-  rw [List.map_cons, solveAlts_clause] at hs
-  simp only [ruleOf, headBody_shift_rule] at hs
-  cases hev : evalThunk F (Thunk.clause (clauseOf c) (argList g) K env id) m with
-  | none => rw [dfsAlts_thunk_none (sem := VM.sem F) (by exact hev)] at hda; cases hda
-  | some pr =>
-  obtain ⟨q0, m1⟩ := pr
-  have hsim0 := hsim
-  obtain ⟨N, σ, π, D, G, hN, hW, hcg, hgr, hco, hq', hgD, hg2⟩ := hsim
-  subst hg2
-  have hkey : functorName g = functorName (SLD.headBody c).1 ∧
-      (argList g).length = (argList (SLD.headBody c).1).length := by
-    have := hc.2
-    simp only [headKey, Prod.mk.injEq] at this
-    exact ⟨this.1.symm, this.2.symm⟩
-  -- the remaining alternatives, from a later state
-  have hrest : ∀ (m2 : MS) (r' : SLD.Res) (ans1 : List Term), m2.user.answers = ans1 → m.user.nextVar ≤ m2.user.nextVar →
-      SLD.solveAlts false (progS prog) n' d nv (cs.map (fun c => .clause (img σ π g) (ruleOf c))) R q (max - ans1.length) = some r' →
-      PSpec tmpl max prog lv d { id := id, delayed := cs.map (fun c => Thunk.clause (clauseOf c) (argList g) K env id) } m2 ans1 r' := by
-    intro m2 r' ans1 h1 h2 h3
-    exact .alts h1 hid0 (fun c' hc' => hcs c' (by simp [hc'])) hshape (hsim0.mono h2) h3
-  have hlv1 : ((id, some d) :: lv).map Prod.fst =
-      push ({ id := id, delayed := cs.map (fun c => Thunk.clause (clauseOf c) (argList g) K env id) } : Pr).id
-        (lv.map Prod.fst) := by
-    simp [push, hid0]
-  have hext := hext_push (lv := lv) (id := id) (some d) hidn
-  have hok1 : LvOK ((id, some d) :: lv) (d + 1) := hok.push hid0 hidn
-  unfold SLD.unify at hs
-  rcases thunk_head (max := max) hcr hW F g K id m (q0, m1) hN hgD hshape hkey hev with
-    ⟨N', hN', hres, hnomgu⟩ | ⟨fuel', env', N', K1, Bs, hN', hcont, hBs, hnoclash, hokh⟩
-  · -- the head unification fails on the VM
-    simp only [Prod.mk.injEq] at hres
-    obtain ⟨rfl, rfl⟩ := hres
-    cases hr : Robinson.solve n' [(img σ π g, SLD.shift nv (SLD.headBody c).1)] [] with
-    | mgu θ => exact absurd hr (hnomgu _ _)
-    | clash =>
-      rw [hr] at hs
-      simp only [Nat.sub_zero, Option.map_eq_some_iff] at hs
-      obtain ⟨r', hr', rfl⟩ := hs
-      rw [prepend_nil]
-      cases k with
-      | zero =>
-        rw [dfsAlts_child_none (sem := VM.sem F) (q := failP) (m1 := bump m N') (by exact hev) (by simp [dfsP])] at hda
-        cases hda
-      | succ k' =>
-        have hq : dfsP (VM.sem F) 0 (k' + 1) failP (push id (lv.map Prod.fst)) (bump m N') =
-            some (.exhausted none, tick (bump m N')) := by
-          rw [leaf_ok' rfl rfl]; rfl
-        rw [dfsAlts_exh (sem := VM.sem F) (by exact hev) hq] at hda
-        subst hans
-        rcases ihP _ _ _ _ _ hda d m.user.answers r' (hrest (tick (bump m N')) r' _ rfl hN' hr') hok hst hlt with hill | hm
-        · exact Or.inl hill
-        · exact Or.inr (hm.from hN')
-    | occurs => rw [hr] at hs; simp at hs
-    | outOfFuel => rw [hr] at hs; simp at hs
-  · -- the head unification succeeds on the VM
-    cases hr : Robinson.solve n' [(img σ π g, SLD.shift nv (SLD.headBody c).1)] [] with
-    | clash => exact absurd hr (hnoclash _)
-    | occurs => rw [hr] at hs; simp at hs
-    | outOfFuel => rw [hr] at hs; simp at hs
-    | mgu θ =>
-      rw [hr] at hs
-      simp only at hs
-      obtain ⟨σ', π', D', G1, hW', hDD', heq, hcgK1, hbody⟩ := hokh n' θ hr
-      cases hs1 : SLD.solve false (progS prog) n' (d + 1) (nv + SLD.maxVar (SLD.rule (SLD.headBody c).1 (SLD.headBody c).2))
-          ((SLD.bodyFrames false (SLD.shift nv (SLD.headBody c).2) d ++ R).map (SLD.Frame.subst θ))
-          (Robinson.applySubst θ q) (max - ans0.length) with
-      | none => rw [hs1] at hs; simp at hs
-      | some r1 =>
-        rw [hs1] at hs
-        simp only at hs
-        subst hans
-        have hgrR : GRel ((id, some d) :: lv) σ' π' D' G (R.map (SLD.Frame.subst θ)) :=
-          (grel_ext hext hgr).step hDD' θ heq
-        have hcoG : CutsOK ((id, some d) :: lv) G := cutsOK_ext hext hco
-        have hq1 : Robinson.applySubst θ q = img σ' π' tmpl := by
-          rw [applySubst_eq, hq', heq tmpl hW.tmplD]
-        have hG1id : ∀ it ∈ G1, it.2 = id := forall2_left hbody (fun a b h => h.2.1)
-        have hcoAll : CutsOK ((id, some d) :: lv) (G1 ++ G) := by
-          refine ⟨?_, ?_⟩
-          · intro it hit hcut
-            rcases List.mem_append.1 hit with h | h
-            · exact ⟨d, by rw [hG1id it h, lev_cons_self]⟩
-            · exact hcoG.1 it h hcut
-          · refine List.pairwise_append.2 ⟨?_, hcoG.2, ?_⟩
-            · have : ∀ it ∈ G1, it.2 = id := hG1id
-              clear hbody hcgK1
-              induction G1 with
-              | nil => exact .nil
-              | cons a G1 ih =>
-                refine List.pairwise_cons.2 ⟨?_, ih (fun it hit => hG1id it (by simp [hit])) (fun it hit => this it (by simp [hit]))⟩
-                intro b hb _ _ la lb hla hlb
-                rw [this a (by simp), lev_cons_self] at hla
-                rw [this b (by simp [hb]), lev_cons_self] at hlb
-                simp only [Option.some.injEq] at hla hlb
-                omega
-            · intro a ha b hb _ hcb la lb hla hlb
-              rw [hG1id a ha, lev_cons_self] at hla
-              simp only [Option.some.injEq] at hla
-              obtain ⟨l0, hl0⟩ := hco.1 b hb hcb
-              have := hext _ _ hl0
-              rw [this] at hlb
-              simp only [Option.some.injEq] at hlb
-              have := hok.lev_lt hl0
-              omega
-        have hspec1 : PSpec tmpl max prog ((id, some d) :: lv) (d + 1) q0 m1 m.user.answers r1 ∧ StOK prog m1 ∧
-            N' ≤ m1.user.nextVar := by
-          rcases hBs with hBs | ⟨hBs, hb⟩
-          · have hgr1 : GRel ((id, some d) :: lv) σ' π' D' (G1 ++ G)
-                ((SLD.bodyFrames false (SLD.shift nv (SLD.headBody c).2) d ++ R).map (SLD.Frame.subst θ)) := by
-              rw [List.map_append]
-              refine Forall2.append ?_ hgrR
-              simp only [SLD.bodyFrames, conjuncts_shift, hBs, Bool.false_eq_true, if_false, List.map_map]
-              exact body_grel (lev_cons_self id (some d) lv) hbody
-            exact cont_run tmpl max prog hprog fuel' K1 env' (bump m N') q0 m1 hcont _ _ _ _
-              ⟨N', σ', π', D', G1 ++ G, Nat.le_refl _, hW', hcgK1 G hcg, hgr1, hcoAll, hq1, trivial⟩
-              (stOK_bump hst N') n' (d + 1) r1 hs1
-          · subst hBs
-            cases hbody
-            have e1 : (SLD.bodyFrames false (SLD.shift nv (SLD.headBody c).2) d ++ R).map (SLD.Frame.subst θ) =
-                SLD.Frame.goal (.atom "true") d :: R.map (SLD.Frame.subst θ) := by
-              rw [hb]
-              simp [SLD.bodyFrames, SLD.shift, SLD.conjuncts, SLD.wrapVar, SLD.Frame.subst, applySubst_eq, Term.subst]
-            rw [e1] at hs1
-            cases n' with
-            | zero => rw [solve_zero] at hs1; cases hs1
-            | succ n'' =>
-              rw [solve_true] at hs1
-              exact cont_run tmpl max prog hprog fuel' K1 env' (bump m N') q0 m1 hcont _ _ _ _
-                ⟨N', σ', π', D', G, Nat.le_refl _, hW', by simpa using hcgK1 G hcg, hgrR, hcoG, hq1, trivial⟩
-                (stOK_bump hst N') n'' (d + 1) r1 hs1
-        obtain ⟨hspec, hst1, hnv1⟩ := hspec1
-        have hmm1 : m.user.nextVar ≤ m1.user.nextVar := Nat.le_trans hN' hnv1
-        rcases after_child ihP hda (by exact hev) hlv1 hspec hok1 hst1 hlt rfl with
-          hill | ⟨m2, hm, hf⟩ | ⟨sig1, m2, hm, hne, hresA⟩
-        · exact Or.inl hill
-        · -- exhausted: the next alternatives
-          rcases hm.stop with ⟨_, hstop, hlen⟩ | ⟨_, _, h1, _⟩ | ⟨h1, _⟩ | ⟨_, _, _, _, _, h1, _⟩
-          · rw [hstop] at hs
-            simp only [Option.map_eq_some_iff] at hs
-            obtain ⟨r', hr', rfl⟩ := hs
-            obtain ⟨new1, hnew1, hfa1⟩ := hm.ans
-            have hl1 : new1.length = r1.answers.length := by
-              have := hfa1.length_eq; simpa using this
-            have hlim : max - m.user.answers.length - r1.answers.length = max - m2.user.answers.length := by
-              rw [hnew1, List.length_append]; omega
-            rw [hlim] at hr'
-            rcases ihP _ _ _ _ _ hf d m2.user.answers r'
-              (hrest m2 r' _ rfl (Nat.le_trans hmm1 hm.nvar) hr') hok hm.st hlen with hill | hm2
-            · exact Or.inl hill
-            · right
-              obtain ⟨new2, hnew2, hfa2⟩ := hm2.ans
-              refine ⟨⟨new2 ++ new1, by rw [hnew2, hnew1, List.append_assoc], ?_⟩, ?_, hm2.st,
-                Nat.le_trans hmm1 (Nat.le_trans hm.nvar hm2.nvar)⟩
-              · rw [List.reverse_append]
-                exact hfa1.append hfa2
-              · exact hm2.stop
-          · cases h1
-          · cases h1
-          · cases h1
-        · -- cut / found / raised: the remaining alternatives are not tried
-          right
-          rcases hm.stop with ⟨h1, _, _⟩ | ⟨c0, l, h1, hstop, h3, h4⟩ | ⟨h1, hstop⟩ | ⟨F', c1, c2, ex, co, h1, hstop⟩
-          · exact absurd h1 hne
-          · subst h1
-            rw [hstop] at hs
-            simp only [Option.some.injEq] at hs
-            subst hs
-            by_cases hc0 : c0 = id
-            · -- the cut of a clause of this call: consumed here
-              subst hc0
-              rw [lev_cons_self] at h3
-              simp only [Option.some.injEq] at h3
-              subst h3
-              rw [absorb_cut_eq] at hresA
-              simp only [Prod.mk.injEq] at hresA
-              obtain ⟨rfl, rfl⟩ := hresA
-              exact ⟨hm.ans, Or.inl ⟨rfl, by simp, h4⟩, hm.st, Nat.le_trans hmm1 hm.nvar⟩
-            · rw [absorb_cut_ne m2 hc0] at hresA
-              simp only [Prod.mk.injEq] at hresA
-              obtain ⟨rfl, rfl⟩ := hresA
-              rw [lev_cons_ne (some d) lv hc0] at h3
-              have hld : l ≠ d := by have := hok.lev_lt h3; omega
-              exact ⟨hm.ans, Or.inr (Or.inl ⟨c0, l, rfl, by simp [hld], h3, h4⟩), hm.st,
-                Nat.le_trans hmm1 hm.nvar⟩
-          · subst h1
-            rw [hstop] at hs
-            simp only [Option.some.injEq] at hs
-            subst hs
-            rw [absorb_found] at hresA
-            simp only [Prod.mk.injEq] at hresA
-            obtain ⟨rfl, rfl⟩ := hresA
-            exact ⟨hm.ans, Or.inr (Or.inr (Or.inl ⟨rfl, hstop⟩)), hm.st, Nat.le_trans hmm1 hm.nvar⟩
-          · subst h1
-            rw [hstop] at hs
-            simp only [Option.some.injEq] at hs
-            subst hs
-            obtain ⟨co', hco'⟩ := absorb_raised id (.exc (errT F' c1)) co m2
-            rw [hco'] at hresA
-            simp only [Prod.mk.injEq] at hresA
-            obtain ⟨rfl, rfl⟩ := hresA
-            exact ⟨hm.ans, Or.inr (Or.inr (Or.inr ⟨F', c1, c2, ex, co', rfl, hstop⟩)), hm.st,
-              Nat.le_trans hmm1 hm.nvar⟩
-
-theorem Forall2.imp_mem {α β : Type} {R S : α → β → Prop} {as : List α} {bs : List β} (h : Forall2 R as bs)
-    (hRS : ∀ a ∈ as, ∀ b, R a b → S a b) : Forall2 S as bs := by
-  induction h with
-  | nil => exact .nil
-  | cons hd _ ih => exact .cons (hRS _ (by simp) _ hd) (ih (fun a ha => hRS a (by simp [ha])))
-
-/-- below a cut parent the levels are at most its level -/
-theorem lev_le_of_drop {lv : Lv} {d : Nat} (h : LvOK lv d) {cp l : Nat} (hcp : lv.lev cp = some l)
-    {e : Nat × Option Nat} (he : e ∈ lv.dropWhile (fun e => e.1 ≠ cp)) {l' : Nat} (hl' : e.2 = some l') : l' ≤ l := by
-  have hmcp := Lv.mem_of_lev hcp
-  have hmono := h.mono
-  have hnd := h.nodup
-  clear hcp h
-  induction lv with
-  | nil => simp at hmcp
-  | cons a lv ih =>
-    by_cases ha : a.1 = cp
-    · simp only [List.dropWhile, ha, ne_eq, not_true_eq_false, decide_false] at he
-      have hacp : a = (cp, some l) := by
-        rcases List.mem_cons.1 hmcp with h | h
-        · exact h.symm
-        · exfalso
-          simp only [List.map_cons, List.nodup_cons] at hnd
-          exact hnd.1 (ha ▸ List.mem_map_of_mem (f := Prod.fst) h)
-      rcases List.mem_cons.1 he with h | h
-      · rw [h, hacp] at hl'
-        simp only [Option.some.injEq] at hl'
-        omega
-      · have := (List.pairwise_cons.1 hmono).1 e h l l' (by rw [hacp]) hl'
-        omega
-    · simp only [List.dropWhile, ha, ne_eq, not_false_eq_true, decide_true] at he
-      have hmcp' : (cp, some l) ∈ lv := by
-        rcases List.mem_cons.1 hmcp with h | h
-        · exact absurd (by rw [← h]) ha
-        · exact h
-      simp only [List.map_cons, List.nodup_cons] at hnd
-      exact ih he hmcp' (List.pairwise_cons.1 hmono).2 hnd.2
-
-theorem tp_down {k : Nat} (h : TPk tmpl max prog F (k + 1)) : TPk tmpl max prog F k := by
-  intro p lv m sig m' hd
-  exact h p lv m sig m' (dfsP_mono (VM.sem F) 0 k (k + 1) (Nat.le_succ k) _ _ _ _ hd)
-
-theorem afterCut_answers (l : Nat) (r : SLD.Res) : (SLD.afterCut l r).answers = r.answers := by
-  unfold SLD.afterCut
-  split <;> rfl
-
-theorem tp_succ {k : Nat} (ihA : TAk tmpl max prog F k) (ihD : TDk tmpl max prog F k)
-    (ihP : TPk tmpl max prog F k) (hprog : ∀ c ∈ prog, clauseOK c = true) :
-    TPk tmpl max prog F (k + 1) := by
-  intro p lv m sig m' hd d ans0 r hspec hok hst hlt
-  cases hspec with
-  | fail hans =>
-    rw [leaf_ok' rfl rfl] at hd
-    simp only [Option.some.injEq, Prod.mk.injEq] at hd
-    obtain ⟨rfl, rfl⟩ := hd
-    exact Or.inr ⟨⟨[], (by show m.user.answers = [] ++ ans0; simpa using hans), .nil⟩,
-      Or.inl ⟨rfl, rfl, by rw [show (tick m).user.answers = m.user.answers from rfl, hans]; exact hlt⟩,
-      stOK_tick hst, Nat.le_refl _⟩
-  | answer hans hrel =>
-    rename_i a q
-    by_cases hc : (a :: ans0).length ≥ max
-    · rw [if_pos hc] at hd
-      rw [leaf_ok' rfl rfl] at hd
-      simp only [Option.some.injEq, Prod.mk.injEq] at hd
-      obtain ⟨rfl, rfl⟩ := hd
-      have h1 : max - ans0.length = 1 := by simp only [List.length_cons] at hc; omega
-      refine Or.inr ⟨⟨[a], (by show m.user.answers = [a] ++ ans0; simpa using hans), .cons hrel .nil⟩,
-        Or.inr (Or.inr (Or.inl ⟨rfl, by simp [h1]⟩)), stOK_tick hst, Nat.le_refl _⟩
-    · rw [if_neg hc] at hd
-      rw [leaf_ok' rfl rfl] at hd
-      simp only [Option.some.injEq, Prod.mk.injEq] at hd
-      obtain ⟨rfl, rfl⟩ := hd
-      have h1 : max - ans0.length ≠ 1 := by simp only [List.length_cons] at hc; omega
-      refine Or.inr ⟨⟨[a], (by show m.user.answers = [a] ++ ans0; simpa using hans), .cons hrel .nil⟩,
-        Or.inl ⟨rfl, by simp [h1], ?_⟩, stOK_tick hst, Nat.le_refl _⟩
-      rw [show (tick m).user.answers = m.user.answers from rfl, hans]
-      simp only [List.length_cons] at hc ⊢
-      omega
-  | err hans =>
-    rename_i F' c1 c2
-    rw [leaf_err' rfl rfl] at hd
-    simp only [Option.some.injEq, Prod.mk.injEq] at hd
-    obtain ⟨rfl, rfl⟩ := hd
-    exact Or.inr ⟨⟨[], (by show m.user.answers = [] ++ ans0; simpa using hans), .nil⟩,
-      Or.inr (Or.inr (Or.inr ⟨F', c1, c2, [], none, rfl, rfl⟩)), stOK_tick hst, Nat.le_refl _⟩
-  | alts hans hid0 hcs hshape hsim hs =>
-    rename_i id cs g g2 K env R q nv n
-    cases cs with
-    | nil =>
-      rw [leaf_ok' rfl rfl] at hd
-      simp only [Option.some.injEq, Prod.mk.injEq] at hd
-      obtain ⟨rfl, rfl⟩ := hd
-      cases n with
-      | zero => rw [List.map_nil, solveAlts_zero] at hs; cases hs
-      | succ n' =>
-        rw [List.map_nil, solveAlts_nil] at hs
-        simp only [SLD.failed, Option.some.injEq] at hs
-        subst hs
-        exact Or.inr ⟨⟨[], (by show m.user.answers = [] ++ ans0; simpa using hans), .nil⟩,
-          Or.inl ⟨rfl, rfl, by rw [show (tick m).user.answers = m.user.answers from rfl, hans]; exact hlt⟩,
-          stOK_tick hst, Nat.le_refl _⟩
-    | cons c cs' =>
-      by_cases hid : (id ≠ 0 ∧ (lv.map Prod.fst).contains id)
-      · rw [ill_id' rfl hid] at hd
-        simp only [Option.some.injEq, Prod.mk.injEq] at hd
-        exact Or.inl hd.1.symm
-      · rw [nocut' rfl hid rfl] at hd
-        have hf : afterChild ({ ({ id := id, delayed := (c :: cs').map (fun c => Thunk.clause (clauseOf c) (argList g) K env id) } : Pr) with cutParent := none }) =
-            ({ id := id, delayed := cs'.map (fun c => Thunk.clause (clauseOf c) (argList g) K env id) } : Pr) := by
-          simp [afterChild]
-        rw [hf] at hd
-        simp only [List.map_cons] at hd
-        have hidn : id ∉ lv.map Prod.fst := by
-          intro hmem
-          exact hid ⟨hid0, by simpa using hmem⟩
-        rcases ihA c cs' id g g2 K env R q nv n d r lv (tick m) sig m' ans0 hd hans hid0 hidn hcs hshape hsim hs
-          hok (stOK_tick hst) hlt with hill | hm
-        · exact Or.inl hill
-        · exact Or.inr (hm.from (Nat.le_refl _))
-  | direct hans hid0 hcode hvars hsim hs =>
-    rename_i id ct K env R q nv n
-    by_cases hid : (id ≠ 0 ∧ (lv.map Prod.fst).contains id)
-    · rw [ill_id' rfl hid] at hd
-      simp only [Option.some.injEq, Prod.mk.injEq] at hd
-      exact Or.inl hd.1.symm
-    · rw [nocut' rfl hid rfl] at hd
-      have hf : afterChild ({ ({ id := id, delayed := [Thunk.clause ct [] K env id] } : Pr) with cutParent := none }) =
-          ({ id := id, delayed := [] } : Pr) := by
-        simp [afterChild]
-      rw [hf] at hd
-      have hidn : id ∉ lv.map Prod.fst := by
-        intro hmem
-        exact hid ⟨hid0, by simpa using hmem⟩
-      rcases ihD ct id K env R q nv n d r lv (tick m) sig m' ans0 hd hans hid0 hidn hcode hvars hsim hs
-        hok (stOK_tick hst) hlt with hill | hm
+/-- the body of the first clause has been searched (`r1`), the reference goes on as `hpost` says -/
+theorem alt_tail {k : Nat} (ihP : TPk fl mo tmpl max prog F k) {t : Thunk} {f q0 : Pr} {lv : Lv} {d id : Nat}
+    {m m1 : MS} {sig : SigG Err} {m' : MS} {r1 r : SLD.Res} {n' nv : Nat} {as : List SLD.Alt}
+    {R : List SLD.Frame} {q : Term}
+    (hda : dfsAlts (VM.sem F) 0 (k + 1) t f (lv.map Prod.fst) m = some (sig, m'))
+    (hgood : GoodA fl F (k + 1) t f (lv.map Prod.fst) m)
+    (hev : evalThunk F t m = some (q0, m1))
+    (hfid : f.id = id) (hfrec : f.recover = none) (hid0 : id ≠ 0) (hidn : id ∉ lv.map Prod.fst)
+    (hok : LvOK mo lv d) (hlt : m.user.answers.length < max)
+    (hspec : PSpecW fl mo tmpl max prog ((id, some d) :: lv) (d + 1) q0 m1 m.user.answers r1)
+    (hst1 : StOK prog m1) (hmm1 : m.user.nextVar ≤ m1.user.nextVar)
+    (hpost : (match r1.stop with
+      | .exhausted => (SLD.solveAlts false (progS prog) n' d nv as R q
+          (max - m.user.answers.length - r1.answers.length)).map (SLD.Res.prepend r1.answers)
+      | .cut c' => some { r1 with stop := if c' = d then .exhausted else .cut c' }
+      | _ => some r1) = some r)
+    (hrest : ∀ (m2 : MS) (r' : SLD.Res), m.user.nextVar ≤ m2.user.nextVar → StOK prog m2 →
+      SLD.solveAlts false (progS prog) n' d nv as R q (max - m2.user.answers.length) = some r' →
+      PSpec fl mo tmpl max prog lv d f m2 m2.user.answers r') :
+    sig = .illScoped ∨ Match mo tmpl max prog lv m.user.answers m m' sig r := by
+  have hlv1 : ((id, some d) :: lv).map Prod.fst = push f.id (lv.map Prod.fst) := by
+    simp [push, hfid, hid0]
+  have hok1 : LvOK mo ((id, some d) :: lv) (d + 1) := hok.push hid0 hidn
+  rcases after_child ihP hda hgood (by exact hev) hlv1 hspec hok1 hst1 hlt hfrec with
+    hill | ⟨m2, hm, hf, hgf⟩ | ⟨sig1, m2, hm, hne, hresA⟩
+  · exact Or.inl hill
+  · -- exhausted: the next alternatives
+    rcases hm.stop with ⟨_, hstop, hlen⟩ | ⟨_, _, h1, _⟩ | ⟨h1, _⟩ | ⟨_, _, _, _, _, h1, _⟩
+    · rw [hstop] at hpost
+      simp only [Option.map_eq_some_iff] at hpost
+      obtain ⟨r', hr', rfl⟩ := hpost
+      obtain ⟨new1, hnew1, hfa1, hna1⟩ := hm.ans
+      have hl1 : new1.length = r1.answers.length := by
+        have := hfa1.length_eq; simpa using this
+      have hlim : max - m.user.answers.length - r1.answers.length = max - m2.user.answers.length := by
+        rw [hnew1, List.length_append]; omega
+      rw [hlim] at hr'
+      rcases ihP _ _ _ _ _ hf hgf d m2.user.answers r'
+        (hrest m2 r' (Nat.le_trans hmm1 hm.nvar) hm.st hr').toW hok hm.st hlen with hill | hm2
       · exact Or.inl hill
-      · exact Or.inr (hm.from (Nat.le_refl _))
-  | cut hans hlcp hN hW hcg hgr hco hq hbnd hs =>
-    rename_i pc vars kk cp l env R q nv n r' N σ π D G'
-    -- the cut: everything created since `cp` was called is discarded
-    have hmem : (lv.map Prod.fst).contains cp = true := by
-      simpa using mem_ids_of_lev hlcp
-    rw [cut' (t := .afterCut pc vars kk [] [] env cp) (ts := []) rfl (by simp [cutPromise]) rfl hmem] at hd
-    have hf : afterChild ({ cutPromise pc vars kk env cp with cutParent := none }) = ({} : Pr) := by
-      simp [afterChild, cutPromise]
-    rw [hf] at hd
-    simp only [Option.map_eq_some_iff] at hd
-    obtain ⟨⟨sigA, mA⟩, hda, hpair⟩ := hd
-    simp only [Prod.mk.injEq] at hpair
-    obtain ⟨rfl, rfl⟩ := hpair
-    -- the path below the cut
-    let lv' : Lv := lv.dropWhile (fun e => e.1 ≠ cp)
-    have hsub : lv'.Sublist lv := List.dropWhile_sublist _
-    have hok' : LvOK lv' d := hok.drop cp
-    have hlive' : lv'.map Prod.fst = (lv.map Prod.fst).dropWhile (· ≠ cp) := map_fst_dropWhile cp lv
-    rw [← hlive'] at hda
-    have hin : ∀ it ∈ G', isCut it → ∀ l', lv.lev it.2 = some l' → lv'.lev it.2 = some l' := by
-      intro it hit hc l' hl'
-      have := mem_drop_of_le hok hlcp hl' (hbnd it hit hc l' hl')
-      exact Lv.lev_of_mem hok'.nodup this
-    have hgr' : GRel lv' σ π D G' R := by
-      refine Forall2.imp_mem hgr ?_
-      rintro it hit fr ⟨hg, l0, hfr, hl0⟩
-      exact ⟨hg, l0, hfr, fun hc => hin it hit hc l0 (hl0 hc)⟩
-    have hco' : CutsOK lv' G' := by
-      refine ⟨fun it hit hc => ?_, ?_⟩
-      · obtain ⟨l0, hl0⟩ := hco.1 it hit hc
-        exact ⟨l0, hin it hit hc l0 hl0⟩
-      · refine hco.2.imp ?_
-        intro a b hab hca hcb la lb hla hlb
-        exact hab hca hcb la lb (lev_of_sub hsub hok.nodup hla) (lev_of_sub hsub hok.nodup hlb)
-    cases k with
-    | zero => simp [dfsAlts] at hda
-    | succ k0 =>
-    have ihP0 : TPk tmpl max prog F k0 := tp_down ihP
-    cases hev : evalThunk F (Thunk.afterCut pc vars kk [] [] env cp) (tick m) with
-    | none => rw [dfsAlts_thunk_none (sem := VM.sem F) (by exact hev)] at hda; cases hda
-    | some pr =>
-      obtain ⟨q0, m1⟩ := pr
-      have hcont : applyCont F (.exec pc vars cp kk) env (tick m) = some (q0, m1) := by
-        cases F with
-        | zero => simp [evalThunk] at hev
-        | succ F' =>
-          rw [continuation_resumes]
-          rw [evalThunk] at hev
-          exact hev
-      subst hans
-      obtain ⟨hspec, hst1, hnv1⟩ := cont_run tmpl max prog hprog F _ env (tick m) q0 m1 hcont lv' R q nv
-        ⟨N, σ, π, D, G', hN, hW, hcg, hgr', hco', hq, trivial⟩ (stOK_tick hst) n d r' hs
-      have hlv1 : lv'.map Prod.fst = push ({} : Pr).id (lv'.map Prod.fst) := by simp [push]
-      rcases after_child ihP0 hda (by exact hev) hlv1 hspec hok' hst1 hlt rfl with
-        hill | ⟨m2, hm, hf2⟩ | ⟨sig1, m2, hm, hne, hresA⟩
-      · subst hill
-        exact Or.inl rfl
       · right
-        cases k0 with
-        | zero => simp [dfsP] at hf2
-        | succ k' =>
-          rw [leaf_ok' rfl rfl] at hf2
-          simp only [Option.some.injEq, Prod.mk.injEq] at hf2
-          obtain ⟨rfl, rfl⟩ := hf2
-          rcases hm.stop with ⟨_, h2, h3⟩ | ⟨_, _, h1, _⟩ | ⟨h1, _⟩ | ⟨_, _, _, _, _, h1, _⟩
-          · refine ⟨by rw [afterCut_answers]; exact hm.ans, Or.inr (Or.inl ⟨cp, l, rfl, ?_, hlcp, h3⟩), hm.st, Nat.le_trans hnv1 hm.nvar⟩
-            simp [SLD.afterCut, h2]
-          · cases h1
-          · cases h1
-          · cases h1
-      · right
-        rcases hm.stop with ⟨h1, _, _⟩ | ⟨c', l', h1, h2, h3, h4⟩ | ⟨h1, h2⟩ | ⟨F', c1, c2, ex, co, h1, h2⟩
-        · exact absurd h1 hne
-        · subst h1
-          have hmem' := Lv.mem_of_lev h3
-          have hc0 : c' ≠ 0 := hok'.nz _ hmem'
-          rw [absorb_cut_ne m2 hc0] at hresA
-          simp only [Prod.mk.injEq] at hresA
-          obtain ⟨rfl, rfl⟩ := hresA
-          have hle : l' ≤ l := lev_le_of_drop hok hlcp hmem' rfl
-          refine ⟨by rw [afterCut_answers]; exact hm.ans,
-            Or.inr (Or.inl ⟨c', l', rfl, ?_, lev_of_sub hsub hok.nodup h3, h4⟩), hm.st, Nat.le_trans hnv1 hm.nvar⟩
-          simp [SLD.afterCut, h2, Nat.min_eq_left hle]
-        · subst h1
-          rw [absorb_found] at hresA
-          simp only [Prod.mk.injEq] at hresA
-          obtain ⟨rfl, rfl⟩ := hresA
-          refine ⟨by rw [afterCut_answers]; exact hm.ans, Or.inr (Or.inr (Or.inl ⟨rfl, ?_⟩)), hm.st, Nat.le_trans hnv1 hm.nvar⟩
-          simp [SLD.afterCut, h2]
-        · subst h1
-          obtain ⟨co', hco''⟩ := absorb_raised 0 (.exc (errT F' c1)) co m2
-          rw [hco''] at hresA
-          simp only [Prod.mk.injEq] at hresA
-          obtain ⟨rfl, rfl⟩ := hresA
-          refine ⟨by rw [afterCut_answers]; exact hm.ans,
-            Or.inr (Or.inr (Or.inr ⟨F', c1, c2, ex, ?_⟩)), hm.st, Nat.le_trans hnv1 hm.nvar⟩
-          cases co' with
-          | none => exact ⟨some cp, rfl, by simp [SLD.afterCut, h2]⟩
-          | some c0 => exact ⟨some c0, rfl, by simp [SLD.afterCut, h2]⟩
-
-theorem tp_zero : TPk tmpl max prog F 0 := by
-  intro p lv m sig m' hd
-  simp [dfsP] at hd
-
-theorem ta_zero : TAk tmpl max prog F 0 := by
-  intro c cs id g g2 K env R q nv n d r lv m sig m' ans0 hda
-  simp [dfsAlts] at hda
-
-theorem td_zero : TDk tmpl max prog F 0 := by
-  intro ct id K env R q nv n d r lv m sig m' ans0 hda
-  simp [dfsAlts] at hda
-
-theorem t_all (hprog : ∀ c ∈ prog, clauseOK c = true) : ∀ k : Nat,
-    TPk tmpl max prog F k ∧ TAk tmpl max prog F k ∧ TDk tmpl max prog F k
-  | 0 => ⟨tp_zero, ta_zero, td_zero⟩
-  | k + 1 =>
-    have ih := t_all hprog k
-    ⟨tp_succ ih.2.1 ih.2.2 ih.1 hprog, ta_succ ih.1 hprog, td_succ ih.1 hprog⟩
+        obtain ⟨new2, hnew2, hfa2, hna2⟩ := hm2.ans
+        refine ⟨⟨new2 ++ new1, by rw [hnew2, hnew1, List.append_assoc], ?_, ?_⟩, ?_, hm2.st,
+          Nat.le_trans hmm1 (Nat.le_trans hm.nvar hm2.nvar)⟩
+        · rw [List.reverse_append]
+          exact hfa1.append hfa2
+        · intro hmo
+          simp [SLD.Res.prepend, hna1 hmo, hna2 hmo]
+        · exact hm2.stop
+    · cases h1
+    · cases h1
+    · cases h1
+  · -- cut / found / raised: the remaining alternatives are not tried
+    right
+    rw [hfid] at hresA
+    rcases hm.stop with ⟨h1, _, _⟩ | ⟨c0, l, h1, hstop, h3, h4⟩ | ⟨h1, hstop⟩ | ⟨F', c1, c2, ex, co, h1, hstop⟩
+    · exact absurd h1 hne
+    · subst h1
+      rw [hstop] at hpost
+      simp only [Option.some.injEq] at hpost
+      subst hpost
+      by_cases hc0 : c0 = id
+      · -- the cut of a clause of this call: consumed here
+        subst hc0
+        rw [lev_cons_self] at h3
+        simp only [Option.some.injEq] at h3
+        subst h3
+        rw [absorb_cut_eq] at hresA
+        simp only [Prod.mk.injEq] at hresA
+        obtain ⟨rfl, rfl⟩ := hresA
+        exact ⟨hm.ans, Or.inl ⟨rfl, by simp, h4⟩, hm.st, Nat.le_trans hmm1 hm.nvar⟩
+      · rw [absorb_cut_ne m2 hc0] at hresA
+        simp only [Prod.mk.injEq] at hresA
+        obtain ⟨rfl, rfl⟩ := hresA
+        rw [lev_cons_ne (some d) lv hc0] at h3
+        have hld : l ≠ d := by have := hok.lev_lt h3; omega
+        exact ⟨hm.ans, Or.inr (Or.inl ⟨c0, l, rfl, by simp [hld], h3, h4⟩), hm.st,
+          Nat.le_trans hmm1 hm.nvar⟩
+    · subst h1
+      have := found_pass hstop hok.lo hpost
+      subst this
+      rw [absorb_found] at hresA
+      simp only [Prod.mk.injEq] at hresA
+      obtain ⟨rfl, rfl⟩ := hresA
+      exact ⟨hm.ans, Or.inr (Or.inr (Or.inl ⟨rfl, hstop⟩)), hm.st, Nat.le_trans hmm1 hm.nvar⟩
+    · subst h1
+      rw [hstop] at hpost
+      simp only [Option.some.injEq] at hpost
+      subst hpost
+      obtain ⟨co', hco'⟩ := absorb_raised id (.exc (errT F' c1)) co m2
+      rw [hco'] at hresA
+      simp only [Prod.mk.injEq] at hresA
+      obtain ⟨rfl, rfl⟩ := hresA
+      exact ⟨hm.ans, Or.inr (Or.inr (Or.inr ⟨F', c1, c2, ex, co', rfl, hstop⟩)), hm.st,
+        Nat.le_trans hmm1 hm.nvar⟩
 
 end
 
